@@ -19,6 +19,7 @@ import Rend.Spec
 import Rend.Gen.Facts
 import Rend.Proofs.SerialFoot
 import Rend.Proofs.KeyLocal
+import Rend.Proofs.ChunkedSerial
 
 namespace Rend.Props.C14
 open Rend
@@ -153,6 +154,54 @@ theorem C14_no_interference {α : Type} (now : Nat) (progs : Nat → Prog OEv α
       ∀ k, K i k → Conc.at' c'.w k = Conc.at' ((progs i).eval now w []).2.2.1 k) ∧
     (∀ k, (∀ i, ¬ K i k) → Conc.at' c'.w k = Conc.at' w k) :=
   Conc.alone now _ hloc hdisj w sched c' hex hquiet
+
+/-- A connection's program on a chunked L1-only deployment. -/
+def runCmdsChunked (now : Nat) : List Cmd → OProg (List (HRes Unit))
+  | [] => pure []
+  | c :: cs => do
+    let r ← L1Only.step (Chunked.handler .l1 now) c
+    let rs ← runCmdsChunked now cs
+    pure (r :: rs)
+
+/-- The backend entries of the client keys of the set `K` under the chunking handler. -/
+def chunkFootOf (K : Bytes → Prop) : Bytes → Prop := fun x => ∃ k, K k ∧ Conc.chunkFoot k x
+
+theorem runCmdsChunked_private (now : Nat) (K : Bytes → Prop) : ∀ (cmds : List Cmd),
+    (∀ c ∈ cmds, ∃ k, cmdKey c = some k ∧ K k) → AllReqs (Conc.FootLocal (chunkFootOf K)) (runCmdsChunked now cmds)
+  | [], _ => AllReqs.pure _
+  | c :: cs, h => by
+    obtain ⟨k, hk, hK⟩ := h c (List.mem_cons_self ..)
+    unfold runCmdsChunked
+    apply AllReqs.bind
+    · exact (Conc.l1only_chunked_footLocal now c k hk).mono (fun t r hr => by
+        rcases hr with hr | hr
+        · exact Or.inl ⟨k, hK, hr⟩
+        · exact Or.inr hr)
+    · intro r
+      apply AllReqs.bind (runCmdsChunked_private now K cs (fun c' hc' => h c' (List.mem_cons_of_mem _ hc')))
+      intro rs
+      exact AllReqs.pure _
+
+/-- **No interference with a chunked L1** (L1-only deployment, no locks needed): connections whose
+    commands are single-key commands on pairwise disjoint sets of client keys.  Although every
+    command is many backend requests on derived entries (`<key>-meta`, `<key>-<n>`), for every
+    schedule that ends with nobody running each connection returned and emitted what it does when
+    it runs alone from the initial state, the backend entries of its keys hold what it leaves when
+    alone, and entries of nobody's keys are untouched. -/
+theorem C14_no_interference_chunked (now : Nat) (cmds : Nat → List Cmd) (K : Nat → Bytes → Prop)
+    (hpriv : ∀ i, ∀ c ∈ cmds i, ∃ k, cmdKey c = some k ∧ K i k) (hdisj : ∀ i j k, K i k → K j k → i = j)
+    (w : World) (sched : List Conc.Step) (c' : Conc.Conf (List (HRes Unit)))
+    (hex : Conc.ExecF now (fun i => { foot := chunkFootOf (K i), stripe := i, body := runCmdsChunked now (cmds i) })
+      (Conc.Conf.init w) sched c')
+    (hquiet : ∀ i p evs, c'.ts i ≠ .running p evs) :
+    (∀ i a evs, c'.ts i = .done a evs →
+      a = ((runCmdsChunked now (cmds i)).eval now w []).1 ∧ evs = ((runCmdsChunked now (cmds i)).eval now w []).2.1 ∧
+      ∀ x, chunkFootOf (K i) x → Conc.at' c'.w x = Conc.at' ((runCmdsChunked now (cmds i)).eval now w []).2.2.1 x) ∧
+    (∀ x, (∀ i, ¬ chunkFootOf (K i) x) → Conc.at' c'.w x = Conc.at' w x) :=
+  C14_no_interference now (fun i => runCmdsChunked now (cmds i)) (fun i => chunkFootOf (K i))
+    (fun i => runCmdsChunked_private now (K i) (cmds i) (hpriv i))
+    (fun i j x ⟨k, hk, hx⟩ ⟨k', hk', hx'⟩ => hdisj i j k hk (Conc.chunkFoot_disjoint k k' x hx hx' ▸ hk'))
+    w sched c' hex hquiet
 
 /-- Non-vacuity: without locks two connections may both be running (the second start is admitted
     while the first is inside its program). -/
